@@ -311,9 +311,50 @@ def run_big(ctx, rng, idx):
     ctx.nontriv('big', n, how)
 
 
+def run_strings(ctx, rng, idx):
+    """Rows of byte strings / unicode strings (atom names, residue codes):
+    attributes and reads against the plain list of rows, compared as Python
+    objects."""
+    kind_ = ['S', 'U'][idx % 2]
+    pool = [b'CA', b'CB', b'N', b'O', b'HA', b'OXT'] if kind_ == 'S' else \
+        ['CA', 'CB', 'N', 'O', 'HA', 'OXT']
+    nrows = int(rng.integers(1, 6))
+    equal = rng.random() < 0.4
+    L0 = int(rng.integers(1, 5))
+    lens = [L0 if equal else int(rng.integers(1, 5)) for _ in range(nrows)]
+    rows = [[pool[int(rng.integers(0, len(pool)))] for _ in range(L)]
+            for L in lens]
+    flat = np.array([x for r in rows for x in r])
+    a = R(rows) if rng.random() < 0.5 else R(flat, lengths=lens)
+    ctx.describe({'strings': kind_, 'lens': lens})
+    ctx.count('reads_checked')
+    ctx.count('string_arrays')
+    exp_shape = (nrows, lens[0] if len(set(lens)) == 1 else None)
+    try:
+        got_rows = [[x for x in np.asarray(a[i]).tolist()]
+                    for i in range(len(a))]
+        ok = (tuple(a.shape) == exp_shape and list(a.lengths) == lens and
+              got_rows == rows and a.size == len(flat) and
+              np.asarray(a.flatten()).tolist() == flat.tolist() and
+              a[0, 0] == rows[0][0] and a[-1, -1] == rows[-1][-1])
+    except Exception as e:  # noqa
+        ctx.violation('ra.read.strings.raised', '%s: %s' % (
+            type(e).__name__, str(e)[:200]))
+        return
+    if not ok:
+        ctx.violation('ra.read.attrs.wrong[strings]',
+                      '%s rows %s: shape %s (expected %s) lengths %s' % (
+                          kind_, lens, tuple(a.shape), exp_shape,
+                          list(a.lengths)))
+    else:
+        ctx.count('reads_agree')
+
+
 def run_case(ctx, kind, rng, idx):
     if kind == 'big':
         return run_big(ctx, rng, idx)
+    if idx % 9 == 4:
+        run_strings(ctx, rng, idx)
     elem_shape = [(), (), (), (3,), (2,)][int(rng.integers(0, 5))]
     rows = M.make_rows(rng, elem_shape=elem_shape)
     how, a, _ = build(rng, rows)
